@@ -228,16 +228,8 @@ class BuilderWorld(World):
         self._judge("build_delegating_metadata", o, given if not must_reject else {}, plain and not must_reject, op)
 
     def _time_definitely_invalid(self, v):
-        import re
-        if not isinstance(v, str):
-            return True
-        if re.fullmatch(r"[0-9]{4}-[0-9]{2}-[0-9]{2}T[0-9]{2}:[0-9]{2}:[0-9]{2}Z", v):
-            return False
-        try:
-            _dt.datetime.strptime(v, ISO)
-            return False            # outside the documented form but admitted by the standard parser: unspecified, not judged
-        except ValueError:
-            return True
+        from refmodel import date_status
+        return date_status(v) == "invalid"
 
     def _judge(self, fn, o, given, plain, op):
         run = self.run
@@ -247,6 +239,13 @@ class BuilderWorld(World):
             run.violate(("C16",), "builder-accepted-invalid-time", "%s returned metadata for a timestamp / expiration argument %r that neither the "
                         "documented format nor the standard parser admits" % (fn, c[1]), "builder-accepted-invalid-time")
             return
+        if o.ok and c and fn == "build_root_metadata" and c[0] in (1, 3):
+            from refmodel import keylist_ok
+            v = c[1]
+            if not (keylist_ok(v) and len(set(v)) == len(v)):
+                run.violate(("C16",), "builder-accepted-non-keys", "build_root_metadata returned metadata for a key list that is not a list of distinct "
+                            "64-digit lower-case hex strings: %r" % (v,), "builder-accepted-non-keys")
+                return
         if not o.ok:
             run.rejects += 1
             if not isinstance(o.exc, (TypeError, ValueError)):
@@ -353,6 +352,8 @@ def _bad_for(rng, pos):
     if pos in (0, 2, 4, "version"):
         return rng.choice([0, -1, 1.0, 2.5, True, False, "1", float("inf"), float("nan"), 10**400, None])
     if pos in (1, 3):
+        if rng.random() < 0.5:
+            return [hx2 for hx2 in [gen.respell(hx, rng.choice(gen.SPELLINGS))] if hx2 != hx] or [hx.upper()]
         return rng.choice([[hx, hx], [hx.upper()], [hx[:-1]], [hx + "0"], hx, [None], [[hx]], {"k": hx}, [hx, " " + hx[1:]]])
     if pos in (5, 6, "timestamp", "expiration"):
         return rng.choice(["2021-W01-1T00:00:00Z", "2021-01-04T00:00+01Z", "2021-01-04T00+01:00Z", "2021-01-04T000000.0Z", "20210104T000000000Z",
